@@ -86,6 +86,35 @@ def check_roundtrip(run, model, d, tag):
         run.nontriv(("rt", d))
 
 
+def readdress(rng, lines, fmt_id):
+    """the same dump with another address column: taken from a non-zero start address, an address that wraps, or arbitrary hex
+    digits (the address digits of a line are part of its layout, their value is not part of the data)"""
+    import pel.hexdump as hd
+    from io_drawer import dump as iod
+    fmt = hd.DEFAULT_LINE_FORMAT if fmt_id == 0 else iod.HEX_DUMP_LINE_FORMATS[fmt_id - 1]
+    cols = [i for i, c in enumerate(fmt) if c == "A"]
+    if not cols:
+        return lines
+    style = rng.randrange(3)
+    start = rng.choice([0x10, 0xFFF0, 0xFFFFFFF0, rng.randrange(1 << 32)])
+    out = []
+    for k, ln in enumerate(lines):
+        if len(ln) <= cols[-1] or any(ln[i] not in "0123456789abcdefABCDEF" for i in cols):
+            out.append(ln)
+            continue
+        if style == 0:
+            digits = "%0*X" % (len(cols), (start + 16 * k) % (16 ** len(cols)))
+        elif style == 1:
+            digits = "".join(rng.choice("0123456789ABCDEFabcdef") for _ in cols)
+        else:
+            digits = "0" * len(cols)
+        ln = list(ln)
+        for i, c in zip(cols, digits):
+            ln[i] = c
+        out.append("".join(ln))
+    return out
+
+
 def check_parse(run, model, lines, fmt_id, tag, expect=None):
     run.evaluations += 1
     got = impl_parse(lines, fmt_id)
@@ -284,11 +313,15 @@ def run(run, model, proof):
             check_parse(run, model, lines, other, "crossformat", expect=None)
             if i % 4 == 0:
                 check_parse(run, model, comments_mix(rng, lines), fid, "render%d:comments" % fid, expect=d)
+            if i % 3 == 1:
+                check_parse(run, model, readdress(rng, lines, fid), fid, "render%d:addresses" % fid, expect=d)
             if i % 5 == 0:
                 check_parse(run, model, mutate_lines(rng, lines), fid, "mutated", expect=None)
         lines = impl_hexdump(d)
         check_parse(run, model, comments_mix(rng, lines), 0, "default:comments", expect=d)
         check_parse(run, model, [x + "\n" for x in lines], 0, "default:newlines", expect=d)
+        if i % 3 == 2:
+            check_parse(run, model, readdress(rng, lines, 0), 0, "default:addresses", expect=d)
         check_parse(run, model, [x.lower() for x in lines], 0, "default:lower", expect=None)
         check_parse(run, model, mutate_lines(rng, lines), 0, "mutated", expect=None)
         if i % 10 == 0:
